@@ -444,6 +444,8 @@ func cmdDfaCases(args []string) int {
 	coq.WriteString("Definition M := Eval vm_compute in mismatches cases.\nPrint M.\n")
 	coq.WriteString("Definition MD := Eval vm_compute in mismatch_details cases.\nPrint MD.\n")
 	coq.WriteString("Definition R := Eval vm_compute in ref_mismatches cases.\nPrint R.\n")
+	// side condition of DfaPrio.p_search_at_is_ref: the compiler's unanchored prefix is referenced by nothing else
+	coq.WriteString("From CV Require Import DfaPrio.\nDefinition PS := Eval vm_compute in map c_id (filter (fun c => andb (prefix_ok (c_nfa c)) (negb (prefix_sep (c_nfa c)))) cases).\nPrint PS.\n")
 	if err := os.WriteFile(*out, []byte(coq.String()), 0o644); err != nil {
 		fatal("write %s: %v", *out, err)
 	}
